@@ -399,7 +399,7 @@ fn main() {
         }
     });
     let mut ev = ev;
-    if args.only.is_none() && args.shard == 0 && !cfg!(miri) {
+    if args.blocks() && !cfg!(miri) {
         shared_long_axis(&mut ev, args.seed, if args.thorough() { 1_000_000 } else { 150_000 });
     }
     ev.finish(
